@@ -109,6 +109,36 @@ static void do_perm(vh::Out &o, long long ci, const std::vector<std::string> &t)
     o.end();
 }
 
+// iterate the permutation: every step is a full `perm` event on the current state, and the next state is the result of the
+// IN-PLACE AVX2 call of this step (so an entry point that remembers anything about the previous call is exercised)
+static void do_permchain(vh::Out &o, long long ci, const std::vector<std::string> &t)
+{
+    int k = atoi(t[1].c_str());
+    std::vector<std::string> cur(t.begin() + 2, t.begin() + 14);
+    for (int step = 0; step < k; step++)
+    {
+        std::vector<std::string> c;
+        c.push_back(step % 2 ? "perm" : "permfull");
+        for (auto &w : cur)
+            c.push_back(w);
+        do_perm(o, ci, c);
+        // next state: in-place AVX2 (odd steps: in-place scalar) permutation of the current one
+        E st[12];
+        for (int i = 0; i < 12; i++)
+            st[i].fe = vh::parse_u64(cur[i]);
+        if (step % 2)
+            PoseidonGoldilocks::hash_full_result_seq(st, st);
+        else
+            PoseidonGoldilocks::hash_full_result(st, st);
+        for (int i = 0; i < 12; i++)
+        {
+            char buf[32];
+            snprintf(buf, sizeof buf, "0x%llx", (unsigned long long)st[i].fe);
+            cur[i] = buf;
+        }
+    }
+}
+
 static void fill(std::vector<uint64_t> &v, uint64_t seed)
 {
     vh::Rng r(seed);
@@ -237,6 +267,8 @@ static void do_case(vh::Out &o, long long ci, const std::vector<std::string> &t)
 {
     if (t[0] == "perm" || t[0] == "permfull")
         do_perm(o, ci, t);
+    else if (t[0] == "permchain")
+        do_permchain(o, ci, t);
     else if (t[0] == "lh")
         do_lh(o, ci, vh::parse_u64(t[1]), vh::parse_u64(t[2]));
     else if (t[0] == "mt")
